@@ -23,7 +23,11 @@ RULE_ADDED = (
               'Also: faults late in a repair that goes through the bootloader; time-outs as second '
               'faults; a re-open that finds no device inside the repair; a `version` request in '
               'between; the early-success and heartbeat-ends-elsewhere shapes; a third of the cases '
-              'with --iodebug ')
+              'with --iodebug '
+              ' '
+              'Round 8: flapping links (2..16 requests in a row, each repaired and failing agai'
+              "n at the command's first exchange) and outages of up to 20 failed reconnections;"
+              " follow-ups run with the follow-up shape's own device settings. ")
 RULE = RULE + " " + RULE_ADDED.strip()
 ASSUMPTIONS = [
     "fault kinds are those of the HID transport (write() < 0, read error, time-out) as the "
